@@ -105,7 +105,7 @@ def global_setting(gname):
 # ------------------------------------------------------------------------------------------------
 CLAUSES = ["add-returns", "graph-holds-added", "complete", "content", "in-place", "causal", "causal-declared", "stable",
            "listing-order", "graph-pointers", "graph-layers", "graph-leaf-cache", "graph-wiring", "graph-observers",
-           "post-modifiers"]
+           "post-modifiers", "steps-listing"]
 
 
 class Stats:
@@ -1615,6 +1615,288 @@ def random_program(rng):
             "G": rng.choice(["file", "A", "B"])}
 
 
+
+# ------------------------------------------------------------------------------------------------
+# Family S: interleaved steps - add, list, add into a previously returned sub-circuit handle, list again
+# ------------------------------------------------------------------------------------------------
+def check_state(circ, expected, late, snaps, stats, witness, nth):
+    """all clauses on the CURRENT state of a circuit.  expected: the leaf operation objects that were added so far (top-level
+    operations, the leaves of returned sub-circuit copies found by the own walk when they were added, operations added into
+    a returned handle); late: ids of operations added after an earlier listing; snaps: id -> (kind, qubits, duration) at add."""
+    fnl = "CircuitCompositeOperation.decomposed_operations"
+    top = circ._structure
+    try:
+        l1 = circ.operations
+        l2 = circ.operations
+    except Exception as e:  # noqa
+        stats.fail(f"listing:raises:{exc_where(e)}:after-adding-into-returned-handle", "circuit.operations returns the listing", "DeclarativeCircuit.operations",
+                   witness, "".join(traceback.format_exception_only(type(e), e)).strip()[:200], "a list")
+        return
+    common.clear_caches()
+    stats.n["steps-listing"] += 1
+    if ids(l1) != ids(l2):
+        stats.fail("stable:second-listing-differs", "listing twice (nothing added in between) gives the same sequence", "DeclarativeCircuit.operations", witness,
+                   {"listing_number": nth, "first": [type(o).__name__ for o in l1][:20], "second": [type(o).__name__ for o in l2][:20]}, "identical")
+    cnt = collections.Counter(ids(l1))
+    pos = {}
+    for i, o in enumerate(l1):
+        pos.setdefault(id(o), i)
+    miss = [o for o in expected if cnt[id(o)] == 0]
+    if miss:
+        o = miss[0]
+        if id(o) in late:
+            cls = "added-into-returned-handle-after-a-listing" if late[id(o)] == "into" else "added-after-a-listing"
+        else:
+            cls = "plain-operation"
+        stats.fail(f"listing-complete:leaf-missing:{cls}", "every leaf operation added so far (also into a returned sub-circuit handle, also after an earlier listing) is an entry of the listing",
+                   fnl, witness, {"listing_number": nth, "missing": [snap(x) for x in miss][:5], "listing": [snap(x) for x in l1][:20]}, {"entries": len(expected)})
+    if any(v > 1 for v in cnt.values()):
+        stats.fail("listing-complete:leaf-duplicated", "one entry per added leaf operation", fnl, witness, {"listing_number": nth}, "once")
+    exp_ids = set(ids(expected))
+    foreign = [o for o in l1 if id(o) not in exp_ids]
+    if foreign:
+        cls = "composite-listed" if is_composite(foreign[0]) else "unknown-object"
+        stats.fail(f"listing-complete:foreign-entry:{cls}", "the listing contains nothing but the added leaf operations", fnl, witness,
+                   {"listing_number": nth, "entry": type(foreign[0]).__name__}, "only added leaf operations")
+    for o in l1:
+        sn = snaps.get(id(o))
+        if sn is not None and not is_composite(o) and snap(o) != sn:
+            stats.fail(f"listing-content:changed:{sn[0]}", "a listed operation has the kind, qubits and duration it was added with", fnl, witness,
+                       {"listing_number": nth, "now": snap(o)}, {"added_as": sn})
+            break
+    parent_of = {}
+    allops = own_all_ops(top, parent_of=parent_of)
+    composites = [o for o in allops if is_composite(o)]
+    span = {}
+    for c in composites:
+        ps = sorted(pos[id(o)] for o in own_leaves(c) if id(o) in pos)
+        if ps:
+            span[id(c)] = (ps[0], ps[-1])
+            if ps != list(range(ps[0], ps[0] + len(ps))):
+                stats.fail("expanded-in-place:not-contiguous:sub-circuit", "the leaf entries of one sub-circuit are one contiguous block", fnl, witness,
+                           {"listing_number": nth, "positions": ps}, "contiguous")
+
+    def first_last(o):
+        if is_composite(o):
+            return span.get(id(o))
+        p = pos.get(id(o))
+        return None if p is None else (p, p)
+    for o in allops:
+        link = o.relation
+        ref = getattr(link, "_reference_node", None)
+        me = first_last(o)
+        if ref is None or me is None:
+            continue
+        stats.n["causal"] += 1
+        rf = first_last(ref)
+        if rf is None:
+            if not is_composite(ref):
+                stats.fail("causal:referent-not-in-listing:" + link_class(o, link, parent_of, set(), {}), "the operation a listed operation refers to is itself listed (and earlier)",
+                           fnl, witness, {"listing_number": nth, "operation": type(o).__name__, "referent": type(ref).__name__}, "referent listed earlier")
+            continue
+        if not rf[1] < me[0]:
+            stats.fail("causal:listed-before-referent:" + link_class(o, link, parent_of, set(), {}), "an operation is never listed before the operation its relation refers to",
+                       fnl, witness, {"listing_number": nth, "operation": type(o).__name__, "first_position": me[0], "referent": type(ref).__name__,
+                                      "referent_last_position": rf[1], "listing": [type(x).__name__ for x in l1][:20]}, "referent first")
+    exp = own_leaves(top)
+    if ids(exp) != ids(l1) and sorted(ids(exp)) == sorted(ids(l1)):
+        stats.fail("listing-order:differs-from-breadth-first-expansion", "the listing is the in-order expansion of the breadth-first node order of the pointer tree",
+                   fnl, witness, {"listing_number": nth}, None)
+    for c in [top] + composites:
+        layers, tree = own_layers(c._circuit_graph)
+        if tree:
+            check_graph(c._circuit_graph, layers, stats, witness, label=lambda n: type(getattr(n, "operation", n)).__name__)
+    return l1
+
+
+def run_steps(program, stats, verbose=False):
+    """program: {"steps": [...], "G": ...}; steps: {"s": "add", "item": item} (item may carry "rel": [index of an earlier top-level add, type]),
+    {"s": "list"}, {"s": "into", "h": k, "item": item} (k indexes circuit.composite_operations at that moment; item may carry
+    "relin": type = explicit relation to the first operation of the handle).  A final listing is always made."""
+    lib = L()
+    gname = program.get("G", "file")
+    witness = {"family": "steps", "steps": program["steps"], "G": gname}
+    with global_setting(gname):
+        common.clear_caches()
+        circ = lib.DeclarativeCircuit()
+        acq = circ.get_acquisition_strategy()
+        expected, late, snaps, top_handles = [], {}, {}, []
+        listings = 0
+
+        def track(objs, how):
+            for o in objs:
+                expected.append(o)
+                if not is_composite(o):
+                    snaps[id(o)] = snap(o)
+                if listings:
+                    late[id(o)] = how
+
+        def make_sub(it):
+            sub_c = lib.DeclarativeCircuit(repetition_strategy=lib.FixedRepetitionStrategy(int(it.get("reps", 1))))
+            build_items(lib, sub_c, it["items"], acq)
+            return sub_c
+        try:
+            for st in program["steps"]:
+                if st["s"] == "list":
+                    listings += 1
+                    l = check_state(circ, expected, late, snaps, stats, witness, listings)
+                    if verbose:
+                        print(f"  listing {listings}:", None if l is None else [snap(o) for o in l])
+                elif st["s"] == "add":
+                    it = st["item"]
+                    rel = None
+                    if it.get("rel"):
+                        rel = lib.RelationLink(top_handles[it["rel"][0]], getattr(lib.RelationType, RELT[it["rel"][1]]))
+                    if it["k"] == "sub":
+                        ret = circ.add(make_sub(it))
+                        if not is_composite(ret) or not any(ret is c for c in circ.composite_operations):
+                            stats.fail("add:sub-circuit-result-is-not-a-composite-of-the-circuit", "adding a sub-circuit returns the composite that now is part of the circuit "
+                                       "(it is among circuit.composite_operations)", "DeclarativeCircuit.add_sub_circuit", witness, type(ret).__name__, "composite handle")
+                        top_handles.append(ret)
+                        track(own_leaves(ret) if is_composite(ret) else [], "add")
+                    else:
+                        o = make_op(lib, it, rel, acq)
+                        ret = circ.add(o)
+                        top_handles.append(ret)
+                        track([o], "add")
+                elif st["s"] == "into":
+                    comps = circ.composite_operations
+                    h = comps[st["h"]]
+                    it = st["item"]
+                    if it["k"] == "sub":
+                        new = make_sub(it).circuit_structure          # the composite itself goes into the handle (no copy is made there)
+                        h.add(new)
+                        track(own_leaves(new), "into")
+                    else:
+                        rel = None
+                        if it.get("relin"):
+                            first = own_nodes(h)
+                            if first:
+                                rel = lib.RelationLink(first[0].operation, getattr(lib.RelationType, RELT[it["relin"]]))
+                        o = make_op(lib, it, rel, acq)
+                        h.add(o)
+                        track([o], "into")
+                else:
+                    raise ValueError(st["s"])
+        except Exception as e:  # noqa
+            stats.skip(f"step program cannot be run: {exc_where(e)}")
+            return
+        listings += 1
+        l = check_state(circ, expected, late, snaps, stats, witness, listings)
+        if verbose:
+            print(f"  listing {listings} (final):", None if l is None else [snap(o) for o in l])
+        stats.inputs["steps"] += 1
+
+
+# alphabets of the exhaustive step enumeration
+S_ADD_LEAF = [op("Rx180", 0), op("Rx180", 1), op("CPhase", [0, 1])]
+S_ADD_SUB = [(sub([op("Rx180", 0)], 1), 1), (sub([op("Rx180", 0)], 2), 1), (sub([op("Rx180", 1), op("Rx90", 1)], 1), 1),
+             (sub([sub([op("Ry90", 0)], 1)], 1), 2), (sub([op("Rx180", 0), sub([op("Ry90", 1)], 2)], 1), 2)]       # (item, number of composites)
+S_INTO = [(op("Ry90", 0), 0), (op("Ry90", 1), 0), (op("Rx90", 0, relin="F"), 0), (sub([op("Rx90", 0)], 1), 1)]
+
+
+def gen_steps(length, shard=None, shards=None):
+    """every step sequence: first step adds a sub-circuit, then `length - 1` steps out of add leaf (no relation / FOLLOWED_BY the previous
+    top-level add) | add sub-circuit | list | add into handle k (every handle that exists at that moment: depth 1 and 2)"""
+    ordinal = [0]
+
+    def rec(prefix, handles, ntop, remaining):
+        if remaining == 0:
+            yield list(prefix)
+            return
+        opts = []
+        for a in S_ADD_LEAF:
+            opts.append(({"s": "add", "item": dict(a)}, 0, 1))
+            opts.append(({"s": "add", "item": dict(a, rel=[ntop - 1, "F"])}, 0, 1))
+        for a, nc in S_ADD_SUB:
+            opts.append(({"s": "add", "item": a}, nc, 1))
+        if not prefix or prefix[-1]["s"] != "list":
+            opts.append(({"s": "list"}, 0, 0))
+        for k in range(handles):
+            for a, nc in S_INTO:
+                opts.append(({"s": "into", "h": k, "item": a}, nc, 0))
+        for st, nc, nt in opts:
+            if len(prefix) == 1 and shard is not None:
+                ordinal[0] += 1
+                if ordinal[0] % shards != shard:
+                    continue
+            prefix.append(st)
+            yield from rec(prefix, handles + nc, ntop + nt, remaining - 1)
+            prefix.pop()
+    for a, nc in S_ADD_SUB:
+        yield from rec([{"s": "add", "item": a}], nc, 1, length - 1)
+
+
+def random_steps(rng):
+    base = random_program(rng)["items"]
+    steps, ncomp = [], 0
+
+    def count(items):
+        return sum(1 + count(it["items"]) for it in items if it["k"] == "sub") + sum(1 for it in items if it["k"] == "again")
+    for i, it in enumerate(base):
+        it = {k: v for k, v in it.items() if k != "share"}
+        if it["k"] == "again":
+            continue
+        if it.get("rel") and it["rel"][0] >= len([s for s in steps if s["s"] == "add"]):
+            it.pop("rel")
+        steps.append({"s": "add", "item": it})
+        if it["k"] == "sub":
+            ncomp += 1 + count(it["items"])
+        while rng.random() < 0.45:
+            if ncomp and rng.random() < 0.65:
+                k = rng.choice(ALL_KINDS + ["sub"])
+                if k == "sub":
+                    item = sub([dict(rng.choice(kind_instances(rng.choice(ALL_KINDS), 0, 3, [0, 3]))) for _ in range(rng.randint(0, 2))], rng.choice([1, 2]))
+                    steps.append({"s": "into", "h": rng.randrange(ncomp), "item": item})
+                    ncomp += 1
+                else:
+                    item = dict(rng.choice(kind_instances(k, rng.choice([0, 3, 5]), 7, [0, 5])))
+                    if rng.random() < 0.3:
+                        item["relin"] = rng.choice("FSE")
+                    steps.append({"s": "into", "h": rng.randrange(ncomp), "item": item})
+            else:
+                steps.append({"s": "list"})
+    # relations of top-level adds must point at earlier adds (indices among the add steps)
+    nadd = 0
+    for stp in steps:
+        if stp["s"] == "add":
+            if stp["item"].get("rel") and stp["item"]["rel"][0] >= nadd:
+                stp["item"].pop("rel")
+            nadd += 1
+    return {"steps": steps, "G": rng.choice(["file", "A", "B"])}
+
+
+def run_steps_job(job):
+    stats = Stats()
+    L()
+    try:
+        gen = ({"steps": s} for s in gen_steps(job["length"], job.get("shard"), job.get("shards"))) if "length" in job else iter(job["programs"])
+        for program in gen:
+            if _DEADLINE[0] is not None and time.time() > _DEADLINE[0] and not job.get("always"):
+                stats.skip(f"time budget of the tier exhausted ({job['family']})")
+                stats.notes["incomplete:" + job["family"]] = True
+                break
+            if "G" not in program:
+                h = hashlib.blake2b(json.dumps(program["steps"], sort_keys=True).encode(), digest_size=2).digest()[0]
+                program["G"] = ("file", "A", "B")[h % 3]
+            run_steps(program, stats)
+            kinds = [s["s"] for s in program["steps"]]
+            if "into" in kinds:
+                if "length" in job:
+                    stats.distinct += 1
+                else:
+                    stats.hashes.add(hashlib.blake2b(json.dumps(program, sort_keys=True).encode(), digest_size=8).digest())
+            if "into" in kinds and "list" in kinds and kinds.index("list") < len(kinds) - 1 - kinds[::-1].index("into"):
+                stats.probe["steps_with_into_after_a_listing"] += 1
+                if len(stats.samples) < 1:
+                    stats.samples.append({"input": {"family": "steps", "steps": program["steps"], "G": program["G"]},
+                                          "checked": "after EVERY listing: complete / no duplicates / nothing foreign against the objects added so far, content, in-place, causal, stable (listed twice), graph layer"})
+    except Exception as e:  # noqa
+        stats.skip("harness error: " + "".join(traceback.format_exception_only(type(e), e)).strip()[:300] +
+                   " @ " + traceback.format_tb(e.__traceback__)[-1].strip()[:200])
+    return stats
+
+
 # ------------------------------------------------------------------------------------------------
 # Jobs, main, replay
 # ------------------------------------------------------------------------------------------------
@@ -1623,6 +1905,8 @@ def run_job(job):
         return run_tree_job(job)
     if job["kind"] == "chain":
         return run_chain_job(job)
+    if job["kind"] == "steps":
+        return run_steps_job(job)
     return run_program_job(job)
 
 
@@ -1680,6 +1964,20 @@ def make_jobs(tier, seed):
     rand = [random_program(rng) for _ in range(nrand)]
     for ch in chunks(rand, 400):
         jobs.append({"kind": "program", "family": "random", "programs": ch})
+    # S: interleaved steps (add / list / add into a returned handle / list)
+    smax = 5 if thorough else 4
+    for length in range(2, smax + 1):
+        k = 1 if length <= 3 else (32 if length == 4 else 256)
+        for sh in range(k):
+            jobs.append({"kind": "steps", "family": f"steps length {length}", "length": length, "shard": sh if k > 1 else None, "shards": k if k > 1 else None,
+                         "always": length <= 3})
+    nrs = 20000 if thorough else 3000
+    rs = [random_steps(rng) for _ in range(nrs)]
+    for ch in chunks(rs, 250):
+        jobs.append({"kind": "steps", "family": "steps random", "programs": ch})
+    plan["S"] = (f"every step sequence of length 2..{smax} (first step adds one of {len(S_ADD_SUB)} sub-circuits with 1-2 composites, then add leaf [3 leaves, none / FOLLOWED_BY previous] | "
+                 f"add sub-circuit | list | add one of {len(S_INTO)} items into every existing handle of circuit.composite_operations, depth 1 and 2), a final listing always; "
+                 f"{nrs} random step programs over all kinds")
     jobs = _round_robin(jobs)
     plan["P-other"] = f"{len(extra)} edge / every-kind programs, {nrand} seeded random programs (<= 6 top-level items, all kinds, nesting <= 2, shared link objects, apply_modifiers / flatten)"
     return jobs, plan
@@ -1687,10 +1985,10 @@ def make_jobs(tier, seed):
 
 def _round_robin(jobs):
     """chains first (long), then the families interleaved, so that a run cut short by the time budget covers all of them"""
-    head = [j for j in jobs if j["kind"] == "chain"]
+    head = [j for j in jobs if j.get("always")] + [j for j in jobs if j["kind"] == "chain"]
     groups = collections.OrderedDict()
     for j in jobs:
-        if j["kind"] == "chain":
+        if j["kind"] == "chain" or j.get("always"):
             continue
         fam = "tree" if j["kind"] == "tree" else j["family"]
         groups.setdefault(fam, []).append(j)
@@ -1733,7 +2031,7 @@ def main(argv=None):
     res.evaluations = sum(n.values())
     res.distinct = total.distinct + len(total.hashes)
     res.exhaustive = not incomplete
-    res.rule = ("T: " + plan["T"] + "; D: " + plan["D"] + "; P (build programs as JSON: add-sequences of operations and sub-circuits, relations none / FOLLOWED_BY / JOINED_START / JOINED_END "
+    res.rule = ("T: " + plan["T"] + "; D: " + plan["D"] + "; S: " + plan["S"] + "; P (build programs as JSON: add-sequences of operations and sub-circuits, relations none / FOLLOWED_BY / JOINED_START / JOINED_END "
                 "to every earlier item of the same level, repetition counts 1..3, nesting <= 2, one representative per relabelling of the qubits): exhaustive " + plan["P-exhaustive"] +
                 " (full alphabet, 26 leaves: Wait (d,channel) in {(0,ALL),(1,MICROWAVE),(2,FLUX),(5,ALL)}, Rx180, DispersiveMeasure on qubits 0..2, CPhase on 3 pairs, Barrier on 5 qubit sets; "
                 "reduced alphabet, 11 leaves: Wait(5,ALL) on 0/1, Wait(0,FLUX) on 0, Rx180 on 0..2, CPhase 0-1 / 1-2, DispersiveMeasure 0, Barrier 0-1 / 0-1-2); " + plan["P-other"] +
@@ -1754,6 +2052,7 @@ def main(argv=None):
         {"function": "CircuitCompositeOperation.decomposed_operations", "contract": "clause 'sub-circuits expanded in place': the leaf entries of every composite (any nesting level) are one contiguous block; the listing is the in-order expansion of the breadth-first node order of the pointer tree", "bound": bound_p, "evaluations": n["in-place"] + n["listing-order"]},
         {"function": "CircuitCompositeOperation.decomposed_operations", "contract": "clause 'never before the operation its relation refers to': for every operation and composite found by the own walk, with its link read before and after the first listing (explicit, implicit, handed-down), all entries of the referent precede all entries of the referrer; and item i added with an explicit relation to item j is listed after item j", "bound": bound_p, "evaluations": n["causal"] + n["causal-declared"]},
         {"function": "DeclarativeCircuit.operations", "contract": "clause 'listing twice gives the same sequence': same objects, same order", "bound": bound_p, "evaluations": n["stable"]},
+        {"function": "DeclarativeCircuit.operations after CircuitCompositeOperation.add on a returned handle", "contract": "after EVERY listing of an interleaved step program (add, list, add an operation or a sub-circuit into a handle of circuit.composite_operations at depth 1 or 2, list): the listing contains exactly the leaf operations added so far (identity; also those added into a nested handle after an earlier listing), once each, content unchanged, composites in place, referents first, two successive listings identical, = expansion of the own walk, graph layer contract", "bound": f"{total.inputs['steps']} step programs ({plan['S']}); {total.probe['steps_with_into_after_a_listing']} of them add into a handle after a listing", "evaluations": n["steps-listing"]},
         {"function": "DeclarativeCircuit.apply_modifiers / flatten -> operations", "contract": "after the modifiers (outside the quantifier; timing-independent clauses only): listing stable, no duplicates, = leaves of the pointer tree, composites expanded in place, single-link referents first, a multi-link operation after at least one member of its group, graph layer contract; the timing-dependent reading (latest member first, acyclic, no recursion) is reported as a probe (which copies must exist is C06 / C11)", "bound": f"{total.inputs['program-after-modifiers']} of the random / every-kind programs", "evaluations": n["post-modifiers"]},
     ]
     pr = total.probe
@@ -1768,7 +2067,7 @@ def main(argv=None):
                        "Deviating classes (count, first witness): " + json.dumps({k: {"count": v.get("count", 1), "witness": {kk: vv for kk, vv in v["witness"].items() if kk != "family"}, "observed": v["observed"]}
                                                                                  for k, v in sorted(total.observations.items())}, default=str)[:6000],
          "ok": not total.observations},
-        {"assumption": "every family produced inputs", "ok": all(total.inputs[k] > 0 for k in ("tree", "chain-graph", "chain-program", "program", "program-after-modifiers"))},
+        {"assumption": "every family produced inputs", "ok": all(total.inputs[k] > 0 for k in ("tree", "chain-graph", "chain-program", "program", "program-after-modifiers", "steps"))},
     ]
     for f in total.failures.values():
         f.pop("_size", None)
@@ -1780,7 +2079,7 @@ def main(argv=None):
     for f in out["failures"]:
         print("  FAILURE", f["key"])
     harness = [k for k in out["skipped"] if k.startswith("harness error")]
-    if harness or not all(total.inputs[k] > 0 for k in ("tree", "program")):
+    if harness or not all(total.inputs[k] > 0 for k in ("tree", "program", "steps")):
         print("HARNESS ERROR:", harness or "a family produced no input")
         return 2
     return 0
@@ -1800,6 +2099,10 @@ def replay(path):
         spec = {k: v for k, v in a.items() if k != "key"}
         print(" chain:", json.dumps(spec))
         check_chain(spec, stats, verbose=True)
+    elif fam == "steps":
+        program = {"steps": a["steps"], "G": a.get("G", "file")}
+        print(" step program:", json.dumps(program))
+        run_steps(program, stats, verbose=True)
     elif fam == "program":
         program = {"items": a["items"], "G": a.get("G", "file"), "post": a.get("post", "none")}
         print(" program:", json.dumps(program))
